@@ -4,6 +4,7 @@ CONSTANTS
   MaxBlocks = 4
   Protocols = {2, 3, 4}
   AllPatterns = FALSE
+  StepCheck = TRUE
   AsCoded = FALSE
 INVARIANTS ObsFinalEqualsSrc ObsTailCut ObsOthersUntouched MatchIsProven SkippedNeverExceedsProven KeptOnlyProven NoFailure
 CONSTRAINT HW
